@@ -128,7 +128,7 @@ Proof.
   intros HI. pose proof HI as [L S Li IA IH IT U HR X].
   set (c0 := List.length (conns s)). set (cn0 := mkConn rid sh true true 1 0 []).
   set (s' := set_conns (conns s ++ [cn0]) s).
-  set (ci0 := mkCi rid sh (m_i m) None (m_i m) (m_time m) None true false false None).
+  set (ci0 := mkCi rid sh (m_i m) None (m_i m) (m_time m) None true false false None (m_time m)).
   assert (Hm : m_conns (track_ev m (ENew c0 sh rid)) = m_conns m ++ [ci0]) by reflexivity.
   assert (Hr : m_reqs (track_ev m (ENew c0 sh rid)) = upd_nth rid (set_ri_dial DsOver) (m_reqs m)) by reflexivity.
   assert (Hold : forall c cn, get_conn s c = Some cn -> get_conn s' c = Some cn).
@@ -1037,6 +1037,14 @@ Proof.
   - eapply G_quiet; [apply H0; discriminate|]. apply quiet_set_now.
 Qed.
 
+Lemma msoft_idle_stamp prev : forall sn m, msoft m (track_idle_stamp prev m sn).
+Proof.
+  intros sn. unfold track_idle_stamp. generalize (sn_idle sn). induction l as [|c l IH]; intros m; cbn [fold_left]; [apply msoft_refl|].
+  eapply msoft_trans; [|apply IH]. destruct (mem c (idle_of prev (sn_token sn))); [apply msoft_refl|]. apply msoft_ci_upd. intros x. cbn. auto.
+Qed.
+Lemma msoft_idle_stamps prev : forall l m, msoft m (fold_left (track_idle_stamp prev) l m).
+Proof. induction l as [|sn l IH]; intros m; cbn [fold_left]; [apply msoft_refl|]. eapply msoft_trans; [apply msoft_idle_stamp|apply IH]. Qed.
+
 Theorem step_ok cfg m s o :
   I None [] m s ->
   chk_C02 cfg m o (observe (step cfg s o)) = true /\ I None [] (track cfg m o (observe (step cfg s o))) (step cfg s o).
@@ -1046,7 +1054,7 @@ Proof.
   - unfold chk_C02. exact Hev.
   - unfold track. change (o_events ob) with (rev (out s')). fold (tm (track_op cfg m o ob) s').
     eapply I_msoft; [|exact HI'].
-    eapply msoft_trans; [apply msoft_fold_offer|]. apply msoft_eq; reflexivity.
+    eapply msoft_trans; [apply msoft_fold_offer|]. eapply msoft_trans; [apply msoft_idle_stamps|]. apply msoft_eq; reflexivity.
 Qed.
 
 Theorem mon_C02_trace_from cfg : forall ops s m,
